@@ -153,11 +153,16 @@ pub fn run(dir: PathBuf, clock: Option<u64>, gate_gc: bool, http: bool, serve: b
                 let wait = Duration::from_millis(req["wait_ms"].as_u64().unwrap_or(150));
                 let _ = c.set_read_timeout(Some(wait));
                 let mut chunk = [0u8; 65536];
+                // until the stream ends, is idle for `wait`, or - a heartbeat never lets it go idle - 600 ms passed
+                let deadline = std::time::Instant::now() + Duration::from_millis(600);
                 loop {
                     match c.read(&mut chunk) {
                         Ok(0) => break,
                         Ok(n) => buf.extend_from_slice(&chunk[..n]),
                         Err(_) => break, // idle for `wait`
+                    }
+                    if std::time::Instant::now() > deadline || buf.len() > 4_000_000 {
+                        break;
                     }
                 }
             }
